@@ -28,14 +28,19 @@ def expected_from_shexc(parsed, cfg):
             elif card == '?': mn, mx = None, 1
             else:
                 mn = mx = int(card[1:-1])
+            def one(t):
+                if t == 'IRI': return "nodeKind:" + SHNS + "IRI"
+                if t == 'BNode': return "nodeKind:" + SHNS + "BlankNode"
+                if t == 'NONLITERAL': return "nodeKind:" + SHNS + "BlankNodeOrIRI"
+                if t.startswith('%<'): return "node:" + t[2:-1]
+                return "datatype:" + t
             t = st['types'][0]
-            if st['prop'] == cfg['inst_prop']:
+            if len(st['types']) > 1:        # a disjunction: one sh:or alternative per ShExC alternative
+                restr = "or:" + ";".join(sorted(one(x) for x in st['types']))
+            elif st['prop'] == cfg['inst_prop']:
                 restr = "in:" + t
-            elif t == 'IRI': restr = "nodeKind:" + SHNS + "IRI"
-            elif t == 'BNode': restr = "nodeKind:" + SHNS + "BlankNode"
-            elif t == 'NONLITERAL': restr = "nodeKind:" + SHNS + "BlankNodeOrIRI"
-            elif t.startswith('%<'): restr = "node:" + t[2:-1]
-            else: restr = "datatype:" + t
+            else:
+                restr = one(t)
             props.append((st['inv'], st['prop'], restr, mn, mx))
         out[sh['label']] = props
     return out
@@ -53,7 +58,13 @@ def run(ctx):
             # percent-encoded local names (DBpedia style): '%' is also sheXer's internal shape-name marker
             ren = lambda t: ('I', t[1].replace(EX + 'C1', EX + 'Caf%C3%A9').replace(EX + 'C0', EX + '100%25_C')) if t[0] == 'I' else t
             g = [(ren(s_), p_, ren(o_)) for s_, p_, o_ in g]
-        cfg = gen.gen_cfg(rng, g, inst_prop=ip, presentation=False)
+        # a fifth of the cases with disjunctions enabled (beyond the property's stated domain: the SHACL writer renders them as sh:or
+        # since the repair of the TypeError; compared implementation against implementation, the Lean SHACL model has no disjunctions)
+        cfg = gen.gen_cfg(rng, g, inst_prop=ip, presentation=False, allow_or=(i % 5 == 0))
+        if i % 5 == 0:
+            cfg['disable_or'] = False
+            cfg['allow_redundant_or'] = rng.random() < 0.5
+            cfg['inverse'] = cfg['inverse'] or rng.random() < 0.5
         cfg['report'] = 'mixed'
         cfg['disable_comments'] = False
         cases.append((g, cfg))
@@ -63,15 +74,19 @@ def run(ctx):
     from shexer.shaper import Shaper
     lines = []
     for i, (g, cfg) in enumerate(cases):
-        lines += model.case_lines(g, cfg, 'shacl', "h%d" % i)
+        if cfg['disable_or']:
+            lines += model.case_lines(g, cfg, 'shacl', "h%d" % i)
     mres = model.run_driver(lines) if ctx.driver_ok else {}
     samples = []
     for i, (g, cfg) in enumerate(cases):
         try:
             sh = Shaper(raw_graph=to_nt(g), input_format=C.NT, **impl.shaper_kwargs(cfg))
             th = cfg['th'][0] / cfg['th'][1]
-            t_shex = sh.shex_graph(string_output=True, acceptance_threshold=th, output_format=C.SHEXC)
-            t_shacl = sh.shex_graph(string_output=True, acceptance_threshold=th, output_format=C.SHACL_TURTLE)
+            res, hang = impl.guarded(lambda: (sh.shex_graph(string_output=True, acceptance_threshold=th, output_format=C.SHEXC),
+                                              sh.shex_graph(string_output=True, acceptance_threshold=th, output_format=C.SHACL_TURTLE)))
+            if hang:
+                raise TimeoutError("shex_graph does not return (ShExC + SHACL of one Shaper, 60 s)")
+            t_shex, t_shacl = res
             p_shex = shex_text.parse(t_shex)
             p_shacl = shacl_text.parse(t_shacl)
         except Exception as e:
@@ -124,7 +139,7 @@ def run(ctx):
                 if not fid:
                     viol.append({"what": "sh:node object is not a declared sh:NodeShape", "object": o, **pipeline.case_json(g, cfg)})
         # correspondence with Shacl.emit
-        if mres:
+        if mres and cfg['disable_or']:
             mshapes = {}
             cur = None
             for ln in mres.get("h%d" % i, []):
@@ -143,7 +158,8 @@ def run(ctx):
         if len(samples) < 1 and len(g) < 9:
             samples.append({"nt": to_nt(g), "shacl": t_shacl})
     return base.std_result(ctx, cases, viol, dis, base.known_lines(kf, reproduced), stats, nontriv, samples,
-                           "random graphs and configurations (disable_or_statements at its default); both serialisations of one Shaper parsed "
+                           "random graphs and configurations (disable_or_statements at its default; in a fifth of the cases enabled: ShExC OR against sh:or, "
+                           "implementation only); both serialisations of one Shaper parsed "
                            "(ShExC by the harness parser, SHACL Turtle by rdflib) and compared per shape as multisets of (direction, predicate, "
                            "restriction, min, max); non-trivial = some shape has >= 2 constraints", DEPS,
                            ["sheXer's vocabulary choices pinned by golden files (sh:dataType spelling, sh:property [ sh:inversePath p ]) are the encoding under test"])
